@@ -199,6 +199,20 @@ def enum_units(tier, seed):
                 head = [plain] if plain["k"] == "const" else []
                 first = [{"k": "org", "a": 0x008000}] + ([plain, {"k": "data", "d": "db", "es": [L(0xEA)]}] if plain["k"] == "label" else [])
                 cases.append({"rom": "low", "files": {}, "ir": head + first + [ref] + sp("lb_mid") + tail + sp("lb_end")})
+    # labels and `=` constants named like a register (a, A, x, y, s) used as the operand of the shift / increment instructions that
+    # also have an accumulator form, before and after their definition, with and without a size suffix
+    for nm in ("a", "A", "x", "s"):
+        for m_ in ("inc", "asl", "ror", "dec"):
+            for sfx in ("", "w", "b"):
+                for how in ("fwd-label", "back-label", "late-const"):
+                    ins_ = {"k": "ins", "m": m_, "shape": ["", None, None], "sfx": sfx, "e": ["id", nm]}
+                    if how == "fwd-label":
+                        body = [ins_] + sp("lb_mid") + [{"k": "label", "n": nm}, {"k": "data", "d": "db", "es": [L(0x5A)]}]
+                    elif how == "back-label":
+                        body = [{"k": "label", "n": nm}, {"k": "data", "d": "db", "es": [L(0x5A)]}, ins_] + sp("lb_mid")
+                    else:
+                        body = [{"k": "const", "n": nm, "e": L(0x10), "eager": False}, ins_] + sp("lb_mid")
+                    cases.append({"rom": "low", "files": {}, "ir": [{"k": "org", "a": 0x008000}] + body + sp("lb_end")})
     # a qualified name that an outer named scope already exports when it is first evaluated (label pass) and that a nearer
     # scope of the same name (defined later, inside the enclosing block / scope / loop / macro) must win at emission
     def named(body):
